@@ -107,6 +107,7 @@ class Registry:
         self.lemma_obs: dict[str, dict] = {}
         self.globals: dict[str, object] = {}
         self.regions: dict[tuple, dict] = {}
+        self.inline_ctor: set[str] = set()
         self.kind_hints: dict = {}
 
     # the functions below are what spec files use -------------------------------------
